@@ -350,6 +350,11 @@ class ExprMixin:
                     return f(a, b)
                 except Exception as e:   # real Python exception of the real operation
                     self.raise_exc(type(e), str(e), fr, node)
+        # an Optional operand known not to be None stands for its value
+        if isinstance(a, SV) and isinstance(a.ty, TOpt):
+            a = self.coerce(a, a.ty.elem)
+        if isinstance(b, SV) and isinstance(b.ty, TOpt):
+            b = self.coerce(b, b.ty.elem)
         tya = self.ty_of(a)
         tyb = self.ty_of(b)
         # DataType flags
